@@ -12,7 +12,8 @@ impl AtomicDuration {
     pub fn new(dur: Option<Duration>) -> Self {
         let dur = match dur {
             None => 0,
-            Some(d) => d.as_millis() as usize,
+            // round up to whole ms, at least 1: 0 means none and truncation fires early
+            Some(d) => (d.as_nanos().div_ceil(1_000_000) as usize).max(1),
         };
 
         AtomicDuration(AtomicUsize::new(dur))
@@ -31,7 +32,8 @@ impl AtomicDuration {
     pub fn store(&self, dur: Option<Duration>) {
         let timeout = match dur {
             None => 0,
-            Some(d) => d.as_millis() as usize,
+            // round up to whole ms, at least 1: 0 means none and truncation fires early
+            Some(d) => (d.as_nanos().div_ceil(1_000_000) as usize).max(1),
         };
 
         self.0.store(timeout, Ordering::Relaxed);
